@@ -534,6 +534,8 @@ def all (c : ImplCase) : List String :=
   let m09 := monC09 c
   monC07 c ++ monSpecAll c ++ monC03 c ++ m09 ++ m10 ++ monC11 c ++ monC12 c ++ monC13 c ++ monC14 c ++ monC01 c
     ++ alias m10 "C10" "C19" ++ alias m09 "C09" "C19" ++ alias m10 "C10" "C01"
-    ++ alias (monC13 c) "C13" "C10"
+    ++ alias (monC13 c) "C13" "C10" ++ alias ((monC13 c).filter (·.contains "FAIL")) "C13" "C12"
+    ++ alias ((monC07 c).filter fun l => l.startsWith "mon C07 FAIL") "C07" "C05"
+    ++ alias ((monC07 c).filter fun l => l.startsWith "mon C07 FAIL") "C07" "C02"
 
 end Mon
